@@ -59,7 +59,7 @@ def run(ctx):
     ctx.cov["distinct_nontrivial"] = nt
     ctx.cov["rule"] = ("records = C(item, outcome, gas) for items with 0..16 imports x 0..16 extrinsics (lengths 0..2^24+3), ten export counts, nine outcomes, "
                        "six gas values, A(hash, bundle, segments) for bundle lengths 1..300001 x export-segment sequences, and WorkReportCompute over packages of "
-                       "1..4/8 items with scripted outcomes (ok / failed / wrong export count); "
+                       "1..4/8 items with scripted outcomes (ok; failed handing back none / fewer / exactly / more than the declared segments; wrong count; outputs exceeding W_R alone or together), every third item repeats each extrinsic spec; "
                        "non-trivial = items with at least one import or extrinsic, specifications with at least one export, all report computations")
     ctx.cov["samples"] = samples
     vf.validate_trace(ctx, "WorkDigest_Trace", lines, shard=150 if ctx.quick else 400, what="work digest / package specification differs from the specification",
